@@ -71,3 +71,52 @@ Definition run_ctor (arg : V) : V :=
   if k =? 6 then res_unit (ctor_ft_track (g 0%nat) (g 1%nat) (g 2%nat)) else
   if k =? 7 then of_result (fun n => VI (Z.of_nat n)) (ctor_event (g 0%nat) (vint (vnth 2 arg) =? 1)) else
   fail EOther.
+
+(* ---------- channel-mapped blocks (C15) ---------- *)
+Definition och (v : V) : option Z := match v with VL [VI c] => Some c | _ => None end.
+Definition pair_of_v (v : V) : obj * option Z := (obj_of_v (vnth 0 v), och (vnth 1 v)).
+Definition ccall_of_v (v : V) : ccall :=
+  let k := vint (vnth 0 v) in
+  if k =? 1 then CAdd (obj_of_v (vnth 1 v)) (och (vnth 2 v)) else
+  if k =? 2 then CRemoveLabel (zs_of (vnth 1 v)) else
+  if k =? 3 then CRemoveIndex (vint (vnth 1 v)) else
+  if k =? 4 then CRemoveItem (obj_of_v (vnth 1 v)) else
+  if k =? 5 then CAddMany (map pair_of_v (vlist (vnth 1 v))) else
+  CAssign (map pair_of_v (vlist (vnth 1 v))).
+Definition ckind_of (z : Z) : ckind := if z =? 0 then KEmg else if z =? 1 then KCal else KDat.
+Fixpoint c_trace (k : ckind) (b : cblock) (cs : list V) : list V :=
+  match cs with
+  | [] => []
+  | c :: r => let '(e, b') := c_step k ieq_id b (ccall_of_v c) in
+              VL [VI (match e with Some e => err_code e | None => 0 end); vints (c_map b');
+                  VL (map v_of_obj (c_items b'))] :: c_trace k b' r
+  end.
+(* [kind; map; items; calls] *)
+Definition run_channels (arg : V) : V :=
+  ok (VL (c_trace (ckind_of (vint (vnth 0 arg)))
+                  (mkCB (zs_of (vnth 1 arg)) (map obj_of_v (vlist (vnth 2 arg)))) (vlist (vnth 3 arg)))).
+
+(* ---------- object heap (C20) ---------- *)
+From Model Require Export Heap.
+Definition hop_of_v (v : V) : hop :=
+  let k := vint (vnth 0 v) in
+  if k =? 1 then HMkList (Z.to_nat (vint (vnth 1 v))) else
+  if k =? 2 then HNew (vint (vnth 1 v)) (och (vnth 2 v)) else
+  if k =? 3 then HDecode (vint (vnth 1 v)) (Z.to_nat (vint (vnth 2 v))) else
+  if k =? 4 then HAdd (vint (vnth 1 v)) else
+  if k =? 5 then HRemove (vint (vnth 1 v)) (Z.to_nat (vint (vnth 2 v))) else
+  if k =? 6 then HEdit (vint (vnth 1 v)) (Z.to_nat (vint (vnth 2 v))) else
+  if k =? 7 then HAssign (vint (vnth 1 v)) (vint (vnth 2 v)) else HEncode (vint (vnth 1 v)).
+Definition v_of_content (c : option (list (Z * option Z))) : V :=
+  match c with
+  | None => VL []
+  | Some l => VL [VL (map (fun p => VL [VI (fst p); VI (match snd p with Some v => v | None => -1 end)]) l)]
+  end.
+Fixpoint h_trace (s : hstate) (os : list V) (hs : list Z) : list V :=
+  match os with
+  | [] => []
+  | o :: r => let s' := h_step s (hop_of_v o) in
+              VL [VI (h_next s); VL (map (fun h => v_of_content (content s' h)) hs)] :: h_trace s' r hs
+  end.
+(* [ops; handles] -> per op [allocator before the op; [content of each handle]] *)
+Definition run_heap (arg : V) : V := ok (VL (h_trace h_init (vlist (vnth 0 arg)) (zs_of (vnth 1 arg)))).
